@@ -805,3 +805,89 @@ class SyncMemModel(Model):
 
 
 seqspec('SynchronousMemory', lambda tier: prod(aw=[1, 2], dw=[1, 2]), b_syncmem, SyncMemModel, note='read returns the content before a same-cycle write')
+
+
+# ================================================================= C14: fixed-point blocks
+def sgn(v, w):
+    v &= m(w)
+    return v - (1 << w) if (v >> (w - 1)) & 1 else v
+
+
+FXP_FORMATS = [(1, 0, 1), (1, 1, 0), (1, 1, 1), (1, 2, 1), (1, 1, 2), (1, 0, 3), (1, 3, 0), (1, 2, 2)]
+
+
+def fxp_same(cls):
+    def build(D, p):
+        f = p['f']
+        w = sum(f)
+        a, b, r = D.wire('a', w), D.wire('b', w), D.wire('r', w)
+        D.make(cls, 'dut', a, f, b, f, r, f, rel='py4hw/logic/arithmetic_fxp.py')
+        return dict(a=a, b=b), dict(r=r)
+    return build
+
+
+spec('FixedPointAdd', 'C14', lambda tier: [dict(f=f) for f in FXP_FORMATS + ([(1, 3, 2), (1, 2, 3)] if tier == 'thorough' else [])], fxp_same('FixedPointAdd'),
+     lambda v, p: dict(r=(sgn(v['a'], sum(p['f'])) + sgn(v['b'], sum(p['f']))) & m(sum(p['f']))),
+     note='encoding of the exact sum reduced modulo the format width')
+spec('FixedPointSub', 'C14', lambda tier: [dict(f=f) for f in FXP_FORMATS + ([(1, 3, 2), (1, 2, 3)] if tier == 'thorough' else [])], fxp_same('FixedPointSub'),
+     lambda v, p: dict(r=(sgn(v['a'], sum(p['f'])) - sgn(v['b'], sum(p['f']))) & m(sum(p['f']))),
+     note='encoding of the exact difference reduced modulo the format width')
+
+
+def b_fxpsign(D, p):
+    f = p['f']
+    a, s = D.wire('a', sum(f)), D.wire('s')
+    D.make('FixedPointSign', 'dut', a, f, s, rel='py4hw/logic/arithmetic_fxp.py')
+    return dict(a=a), dict(s=s)
+
+
+spec('FixedPointSign', 'C14', lambda tier: [dict(f=f) for f in FXP_FORMATS], b_fxpsign, lambda v, p: dict(s=(v['a'] >> (sum(p['f']) - 1)) & 1),
+     note='the sign bit of the encoding')
+
+
+def b_fxpmult(D, p):
+    af, bf, rf = p['af'], p['bf'], p['rf']
+    a, b, r = D.wire('a', sum(af)), D.wire('b', sum(bf)), D.wire('r', sum(rf))
+    D.make('FixedPointMult', 'dut', a, af, b, bf, r, rf, rel='py4hw/logic/arithmetic_fxp.py')
+    return dict(a=a, b=b), dict(r=r)
+
+
+def r_fxpmult(v, p):
+    af, bf, rf = p['af'], p['bf'], p['rf']
+    prod = sgn(v['a'], sum(af)) * sgn(v['b'], sum(bf))          # exact, scaled by 2**-(fa+fb)
+    return dict(r=(prod >> (af[2] + bf[2] - rf[2])) & m(sum(rf)))   # truncation (floor) to the result's fraction, reduced to its width
+
+
+def fxpmult_cfgs(tier):
+    out = []
+    for af in ((1, 1, 1), (1, 2, 1), (1, 1, 2), (1, 0, 2), (1, 2, 0)):
+        for bf in ((1, 1, 1), (1, 1, 2), (1, 2, 0)):
+            for rf in ((1, 1, 1), (1, 2, 2), (1, 3, 1), (1, 2, 0), (1, 1, 3), (1, 4, 3)):
+                if af[2] + bf[2] - rf[2] >= 0 and (af[2] + bf[2] - rf[2]) + sum(rf) <= sum(af) + sum(bf):
+                    out.append(dict(af=af, bf=bf, rf=rf))
+    return out if tier == 'thorough' else out[::2]
+
+
+spec('FixedPointMult', 'C14', fxpmult_cfgs, b_fxpmult, r_fxpmult,
+     note='exact product of the signed values, truncated to the result fraction and reduced to the result width (incl. the most negative value squared)')
+
+
+def b_fxpcmp(D, p):
+    f = p['f']
+    w = sum(f)
+    a, b = D.wire('a', w), D.wire('b', w)
+    gt, eq, lt = D.wire('gt'), D.wire('eq'), D.wire('lt')
+    D.make('FixedPointComparator', 'dut', a, f, b, f, gt, eq, lt)
+    return dict(a=a, b=b), dict(gt=gt, eq=eq, lt=lt)
+
+
+def r_fxpcmp(v, p):
+    w = sum(p['f'])
+    a, b = sgn(v['a'], w), sgn(v['b'], w)
+    if not (-(1 << (w - 1)) <= a - b < (1 << (w - 1))):
+        return {}           # the difference is not representable: outside the property's domain
+    return dict(gt=int(a > b), eq=int(a == b), lt=int(a < b))
+
+
+spec('FixedPointComparator', 'C14', lambda tier: [dict(f=f) for f in FXP_FORMATS if sum(f) >= 2], b_fxpcmp, r_fxpcmp,
+     note='orders the signed values whenever their difference is representable')
